@@ -85,6 +85,18 @@ def _(E, m, a, c0):
     E.wr(a[0], Adt('Iter', None, [items, pos + 1, it.fields[2]])); return opt(items.fields[pos])
 @pfirst(r'<(?:std::str::)?(Chars|Bytes|CharIndices)(?:<.*>)? as IntoIterator>::into_iter')
 def _(E, m, a, c0): return a[0]
+# Peekable<Chars>: a cursor Adt('PeekChars', None, [Seq chars, python index])
+@pfirst(r'<(?:std::iter::)?Peekable<.*Chars.*> as Iterator>::next')
+def _(E, m, a, c0):
+    p = E.deref(a[0]); chars, idx = p.fields
+    if idx >= len(chars.fields): return opt()
+    E.wr(a[0], Adt('PeekChars', None, [chars, idx + 1])); return opt(chars.fields[idx])
+@pfirst(r'(?:std::iter::)?Peekable::peek')
+def _(E, m, a, c0):
+    p = E.deref(a[0]); chars, idx = p.fields
+    return opt(Ref(Cell(chars.fields[idx]))) if idx < len(chars.fields) else opt()
+@pfirst(r'<.* as Iterator>::peekable')
+def _(E, m, a, c0): return Adt('PeekChars', None, [Seq(rest(E, a[0])), 0])
 def _ws(c): return z3.Or(c == 32, z3.And(c >= 9, c <= 13))
 @pattern(r'core::str::<impl str>::(trim|trim_start|trim_end)')
 def _(E, m, a, c0):
